@@ -54,7 +54,9 @@ class FakeSock:
 
     def connect_ex(self, addr):
         self.remote_addr = addr
-        if tuple(addr) in getattr(self.node.net, "unreachable", ()):
+        host = str(addr[0])
+        never = host == "255.255.255.255" or host.split(".")[0] in ("224", "239", "0")      # multicast / broadcast / "this network":
+        if never or tuple(addr) in getattr(self.node.net, "unreachable", ()):                # the kernel refuses at once
             # no route / interface down: the non-blocking connect fails AT ONCE (ENETUNREACH); the socket then reports
             # readable and recv() raises, like a real one
             self.refused = True
@@ -62,6 +64,33 @@ class FakeSock:
             return 101
         self.node.net.pending_connects.append(self)
         return 115
+
+    def connect(self, addr):
+        """the raising form of connect_ex: a non-blocking socket reports "in progress" as BlockingIOError and a synchronous
+        failure (no route) as OSError"""
+        rc = self.connect_ex(addr)
+        if rc == 115:
+            raise BlockingIOError(115, "Operation now in progress")
+        if rc:
+            raise OSError(rc, "Network is unreachable")
+
+    def setsockopt(self, *a):
+        pass
+
+    def settimeout(self, x):
+        pass
+
+    def getsockopt(self, level, opt, *a):
+        return 111 if self.refused else 0          # SO_ERROR
+
+    def shutdown(self, how):
+        pass
+
+    def sendall(self, b):
+        """on a non-blocking socket: writes what fits, then raises if something is left"""
+        k = self.send(b)
+        if k < len(b):
+            raise BlockingIOError(11, "Resource temporarily unavailable")
 
     def getpeername(self):
         return self.peername
